@@ -1237,6 +1237,7 @@ func ruleDefaultWhenEmpty(c *Ctx, r *Rep) {
 					continue
 				}
 				// the exits that report the name as unknown: error returns behind `ok == false`
+				missExits := 0
 				for _, ref := range *lk.Referrers() {
 					ex, isEx := ref.(*ssa.Extract)
 					if !isEx || ex.Index != 1 {
@@ -1262,6 +1263,7 @@ func ruleDefaultWhenEmpty(c *Ctx, r *Rep) {
 						}
 						k++
 						n++
+						missExits++
 						okGuard, found := false, "no test of the name on the way"
 						for _, g := range guardsOf(ret.Block()) {
 							x, empty, isTest := emptyTestOf(g.Cond, g.Truth)
@@ -1280,6 +1282,7 @@ func ruleDefaultWhenEmpty(c *Ctx, r *Rep) {
 						r.Check(okGuard, sprintf("unknown-only-when-given|%s|%s#%d", field, c.FuncKey(fn), k), c.Pos(ret.Pos()), "the error for an unknown "+field+" lies behind a test that the name is non-empty", found)
 					}
 				}
+				r.Check(missExits > 0, sprintf("unknown-is-error|%s|%s", named[strings.LastIndex(named, ".")+1:], c.FuncKey(fn)), c.Pos(lk.Pos()), "a name that is not in the table makes the function return an error (behind ok == false)", sprintf("%d such exits", missExits))
 			}
 		}
 	}
